@@ -16,6 +16,7 @@ import (
 	"encoding/base64"
 	"encoding/json"
 	"fmt"
+	pgeneric "github.com/cloudwego/dynamicgo/proto/generic"
 	"strconv"
 	"strings"
 
@@ -29,10 +30,10 @@ func init() { register("C09", runC09) }
 
 type c09Style struct {
 	t        *simrt.Tape
-	ws       int  // 0 compact, 1 some blanks, 2 newlines
-	byName   int  // 0 JSON names, 1 proto field names, 2 mixed
-	nullPct  int  // absent singular fields rendered as an explicit null
-	unkPct   int  // unknown members
+	ws       int // 0 compact, 1 some blanks, 2 newlines
+	byName   int // 0 JSON names, 1 proto field names, 2 mixed
+	nullPct  int // absent singular fields rendered as an explicit null
+	unkPct   int // unknown members
 	usedUnk  int
 	usedNull int
 	// override: one value spelled with a literal of another kind (negative document)
@@ -291,10 +292,11 @@ func runC09(w *W) {
 	w.Logf("schema:\n%s\nDisallowUnknownField=%v pbbufcap=%d", sch.Text, opts.DisallowUnknownField, knobs.PBBufCap)
 	w.worldFacts = map[string]string{"u64_high": fmt.Sprint(swU64High)}
 
+	var reuse []byte
 	ndocs := 1 + t.Intn(4, "ndocs")
 	for d := 0; d < ndocs; d++ {
 		vo := pvgenOpts{MaxElems: 1 + t.Intn(6, "val.elems"), MaxStr: 1 + sizeClass(t, "val.maxstr", 400), Depth: 1 + t.Intn(4, "val.depth"),
-			PresentPct: pickInt(t, "val.present", 70, 100, 30), U64High: swU64High, EmptyMsgs: true, NoNegZero: true, KeyMaxInt63: true, MaxNodes: 80, MsgPresentPct: 85}
+			PresentPct: pickInt(t, "val.present", 70, 100, 30, 0), U64High: swU64High, EmptyMsgs: true, NoNegZero: true, KeyMaxInt63: true, MaxNodes: 80, MsgPresentPct: 85}
 		if t.Chance(1, 4, "val.wide") {
 			// payloads that move nested length prefixes across the 1->2->3 byte boundaries
 			vo.MaxStr = pickInt(t, "val.wide.str", 120, 126, 130, 16380, 16390, 300)
@@ -340,6 +342,13 @@ func runC09(w *W) {
 				w.opFacts = nil
 				w.Count("failing_precursor")
 			}
+			// other users of the proto write-buffer pool ran before: the next buffer the pool hands out has been
+			// used (and, here, poisoned on its way back)
+			if t.Chance(1, 3, "pre.churn") {
+				w.NextOp("generic MarshalTo on the reference encoding (returns a write buffer to the pool)")
+				pgeneric.NewRootValue(desc, sch.refEncode(mv)).MarshalTo(desc, &pgeneric.Options{})
+				w.Count("pool_churn_marshalto")
+			}
 			env := c09Env{DoInto: t.Chance(1, 2, "env.into"), InPlace: pickInt(t, "env.inplace", simrt.PlaceHeap, simrt.PlaceGuardEnd, simrt.PlaceReadOnly)}
 			if env.DoInto {
 				env.Cap = pickInt(t, "env.cap", 0, 1, len(js), len(want), len(want)+1, 4096)
@@ -353,9 +362,16 @@ func runC09(w *W) {
 			saved := w.World.StepLimit
 			w.World.StepLimit = w.World.Steps + uint64(400*len(js)) + 100000
 			if env.DoInto {
-				buf := make([]byte, 0, env.Cap)
-				err = cv.DoInto(ctx, desc, in.B, &buf)
-				out = buf
+				// one buffer variable for the whole series, as a caller converting a stream does: sometimes it
+				// still holds the previous result, sometimes it is a fresh one of a tape-chosen capacity
+				if env.Cap != 1 || reuse == nil {
+					reuse = make([]byte, 0, env.Cap)
+				} else {
+					facts["buffer_holds_previous_result"] = "true"
+					w.Count("dointo_buffer_holds_previous_result")
+				}
+				err = cv.DoInto(ctx, desc, in.B, &reuse)
+				out = reuse
 			} else {
 				out, err = cv.Do(ctx, desc, in.B)
 			}
